@@ -190,8 +190,13 @@ def shift_case(srv, part, rng):
         early = dtstart.replace(year=dtstart.year - 2 * iv)      # 24 * iv months
     U, u_ended, _ = pop(srv, event(early, base), N + 60)
     got, g_ended, _ = pop(srv, event(dtstart, base + ";SHIFT=" + stext + lim), N)
-    if any(isinstance(x, tuple) for x in U + got) or len(U) < 10:
-        part.inconclusive.append({"why": "base too short", "rule": base})
+    if any(isinstance(x, tuple) for x in U + got):
+        part.inconclusive.append({"why": "unshifted base stream unusable", "rule": base})
+        return
+    if len(U) < 10:
+        # the generator picked a day that (almost) never exists, e.g. February 31: nothing to shift, not a case
+        part.count("base_rules_without_occurrences_skipped")
+        part.evaluations -= 1
         return
     shifted = sorted({fn(x) for x in U})
     # what the unshifted base can vouch for: shifted images of occurrences strictly inside the unrolled span
